@@ -300,6 +300,8 @@ def check(pid, tier, seed, replay=None):
                 continue
             if not avx2_built:
                 ok, out = cargo_build(avx2=True)
+                if not ok:  # cargo's first rustc probe in a fresh target directory has been seen to fail spuriously
+                    ok, out = cargo_build(avx2=True)
                 if not ok:
                     infra("cargo build of the AVX2 harness failed\n" + out[-3000:])
                 avx2_built = True
